@@ -242,6 +242,9 @@ def model(ai, st, bi, ce, args, atys, dty, key):
         if op in ("div_ceil", "next_multiple_of", "pow", "abs_diff", "wrapping_sub", "wrapping_add", "wrapping_mul", "count_ones", "leading_zeros", "trailing_zeros",
                   "to_be_bytes", "to_le_bytes", "from_be_bytes", "from_le_bytes", "checked_mul", "checked_div", "is_power_of_two", "swap_bytes", "to_be", "to_le"):
             return pure(NotImplemented)
+    if p == "core::ops::range::RangeInclusive::<Idx>::new" and len(args) == 2 and is_lin(a0) and is_lin(args[1]):
+        # lo..=hi built at run time (a `let range = LO..=HI;`): the same (start, end) pair a constant range is read as
+        return pure(("t", (a0, args[1]), "core::ops::range::RangeInclusive"))
     if p in ("core::ops::range::RangeInclusive::<Idx>::contains", "core::ops::range::Range::<Idx>::contains") and len(args) == 2:
         r = ai.load(st, a0)
         x = ai.load(st, args[1])
